@@ -261,6 +261,11 @@ fn collect<'tcx>(tcx: TyCtxt<'tcx>, krate: &str) -> J {
             o.set("ty", J::s(&ty_s(ty)));
             if let Ok(v) = tcx.const_eval_poly(did) {
                 o.set("value", constvalue_j(tcx, v, ty));
+                if let ConstValue::Indirect { alloc_id, offset } = v {
+                    if let Some(b) = alloc_bytes_n(tcx, alloc_id, offset.bytes(), 512) {
+                        o.set("mem", b);
+                    }
+                }
             }
             consts.set(&path_s(tcx, did), o);
         }
@@ -564,6 +569,15 @@ fn alloc_bytes<'tcx>(
     alloc_id: rustc_middle::mir::interpret::AllocId,
     offset: u64,
 ) -> Option<J> {
+    alloc_bytes_n(tcx, alloc_id, offset, 64)
+}
+
+fn alloc_bytes_n<'tcx>(
+    tcx: TyCtxt<'tcx>,
+    alloc_id: rustc_middle::mir::interpret::AllocId,
+    offset: u64,
+    max: u64,
+) -> Option<J> {
     match tcx.try_get_global_alloc(alloc_id) {
         Some(rustc_middle::mir::interpret::GlobalAlloc::Memory(a)) => {
             let a = a.inner();
@@ -571,7 +585,7 @@ fn alloc_bytes<'tcx>(
             if offset > size {
                 return None;
             }
-            let end = core::cmp::min(size, offset + 64);
+            let end = core::cmp::min(size, offset + max);
             let bytes = a.inspect_with_uninit_and_ptr_outside_interpreter(offset as usize..end as usize);
             Some(J::Arr(bytes.iter().map(|b| J::n(*b as i128)).collect()))
         }
